@@ -19,7 +19,7 @@ from vlib import symres
 
 PROP = "C03"
 META = {
-    "ready": False,
+    "ready": True,
     "level": "model_checking",
     "technique": "TLA+ spec of archive activation (declarative least fixpoint vs concurrent request/take protocol, all interleavings by TLC) + replay of every enumerated reference graph into the real linker, member set read from output markers, lld/GNU ld as cross-oracles",
     "level_text": "TLC explores every interleaving of the request/take protocol for all reference graphs over three objects/archive members and two names (quick) plus -u roots, weak references, whole-archive members, and four-file chains (thorough): LoadedOnce, soundness and confluence to the least fixpoint; each configuration is replayed into the real wild (thin/grouped archives, --start-lib, 1-8 threads, seeded yields) and the loaded member set and error class are compared with the rule.",
@@ -99,7 +99,7 @@ def trace_validation(ctx, cov):
 
 def run(ctx):
     if ctx.quick:
-        plan = [("mc/SymRes_c03_quick.cfg", 900, 16), ("mc/SymRes_c03_roots.cfg", 900, 8)]
+        plan = [("mc/SymRes_c03_quick.cfg", 900, 24), ("mc/SymRes_c03_roots.cfg", 900, 12)]
     else:
         plan = [("mc/SymRes_c03_quick.cfg", 900, 2), ("mc/SymRes_c03_roots.cfg", 900, 1),
                 ("mc/SymRes_c03_weak.cfg", 2400, 16), ("mc/SymRes_c03_chain.cfg", 1200, 6)]
